@@ -121,11 +121,11 @@ def instantiate(m, toks, ranges, passno):
     first_line = m['repl'][0][2] if m['repl'] else 0
     for c in m['repl']:
         if c[0] == K['INSERTION']:
-            n = int(bytes.fromhex(c[3]).decode()[1:])
+            n = int((vlib.unhex_s(c[3])[1:]) or 0)
             a, b = ranges[slots[n]]
             out += [(t[0], t[3]) for t in toks[a:b]]
         elif c[0] == K['TEMP_VAL']:
-            name = bytes.fromhex(c[3]) + b':' + (bytes.fromhex(c[1]) if c[1] != '-' else b'') + b':' + str(first_line).encode() + b'_(M' + str(passno).encode() + b')'
+            name = vlib.unhex(c[3]) + b':' + (bytes.fromhex(c[1]) if c[1] != '-' else b'') + b':' + str(first_line).encode() + b'_(M' + str(passno).encode() + b')'
             out.append((K['ID'], name.hex()))
         else:
             out.append((c[0], c[3]))
@@ -306,7 +306,7 @@ def explore(ctx, res, replay=None):
             if il == 'SKIPPED':
                 broken = True
                 continue
-            if il.startswith(('CRASH', 'TIMEOUT', 'MISSING')):
+            if il.startswith(('CRASH', 'TIMEOUT', 'MEMLIMIT', 'MISSING')):
                 res.violations.append(dict(case, what='crash', detail=il[:100], budget=meta[cid][3]))
                 broken = True
                 continue
@@ -399,8 +399,8 @@ def explore(ctx, res, replay=None):
                     exps.append(flat(xtoks[:i]) + instantiate(usable[mi], xtoks, rg, 0) + flat(xtoks[i + ln:]))
                 if got not in exps:
                     res.violations.append(dict(case, what='step', detail='after one step: %s; expected (priority %d, start %d, length %d): %s' % (
-                        ' '.join(bytes.fromhex(x[1]).decode('latin-1') for x in got)[:200], bp, bi, bl,
-                        ' '.join(bytes.fromhex(x[1]).decode('latin-1') for x in exps[0])[:200])))
+                        ' '.join(vlib.unhex_s(x[1]) for x in got)[:200], bp, bi, bl,
+                        ' '.join(vlib.unhex_s(x[1]) for x in exps[0])[:200])))
                 res.count('steps_checked')
         # ---------------- C11: budget bookkeeping ----------------
         if pid == 'C11':
@@ -426,12 +426,12 @@ def explore(ctx, res, replay=None):
             for mi_, m_ in enumerate(macros):
                 for t_ in m_['repl']:
                     if t_[0] == K['TEMP_VAL']:
-                        origin[(t_[1], t_[2], bytes.fromhex(t_[3]).decode('latin-1'))] = mi_
+                        origin[(t_[1], t_[2], vlib.unhex_s(t_[3]))] = mi_
             for b in budgets:
                 owner = {}
                 for t_ in ap[b][0]:
                     if t_[0] == 1 and t_[3].startswith('23'):
-                        nm_ = bytes.fromhex(t_[3]).decode('latin-1')
+                        nm_ = vlib.unhex_s(t_[3])
                         o_ = origin.get((t_[1], t_[2], nm_.split(':')[0]))
                         if o_ is None:
                             continue
@@ -462,15 +462,15 @@ def explore(ctx, res, replay=None):
                     clash = fresh_names & tmp(A[:pre] + A[len(A) - suf:])
                     if clash:
                         res.violations.append(dict(case, what='fresh', budget=b, detail='pass %d introduced temporary %r, which already names a temporary of an earlier step' % (
-                            b - 1, bytes.fromhex(sorted(clash)[0]).decode('latin-1'))))
+                            b - 1, vlib.unhex_s(sorted(clash)[0]))))
                     for nm in set(after):
-                        s2 = bytes.fromhex(nm).decode('latin-1')
+                        s2 = vlib.unhex_s(nm)
                         if re.match(r'^[A-Za-z_][A-Za-z0-9_]*$', s2):
                             res.violations.append(dict(case, what='user', budget=b, detail='renamed temporary %r is a name a user can write' % s2))
                 prev = (b, names, ap[b][0])
             # a renamed temporary can never be scanned as a user identifier: it starts with '#'
         if len(res.samples) < 3 and kind == 'random' and k % 37 == 0:
-            res.sample({'defs': defs, 'stream': stream, 'after_1': ' '.join(bytes.fromhex(t[3]).decode('latin-1') for t in ap[budgets[0]][0])[:200] if budgets else ''})
+            res.sample({'defs': defs, 'stream': stream, 'after_1': ' '.join(vlib.unhex_s(t[3]) for t in ap[budgets[0]][0])[:200] if budgets else ''})
     if not res.samples and by_n:
         kind, defs, stream, _, _ = meta[by_n[0][0]]
         res.sample({'defs': defs, 'stream': stream})
